@@ -233,6 +233,30 @@ CLAIMED = {
              "(near-midpoint quadratic: cancelled closed form, wrong by up to 2x).",
         technique="Lean 4 proof (induction over the recursion budget and over segment lists; ordered-field algebra) + differential correspondence + quadrature oracle and invariance relations on the implementation",
         ref="DESIGN.md §4 C15"),
+    "C03": dict(
+        text="Lean 4 theorems, for every forest of element trees of any depth with any number of (nested, repeated, cyclic) use "
+             "references, every configuration and every initial scope (well-founded induction on (use-expansion budget, tree size), "
+             "the measure semiparse itself terminates by): the library's two-pass algorithm - semiparse flattening the tree into a "
+             "start/end event stream with use targets inlined, then a loop with an explicit (context, values, width, height) stack and "
+             "wholesale dictionary inheritance (Model/Doc) - renders exactly the shapes, in exactly the order, of a recursive renderer "
+             "with lexical scopes (Spec/DocSpec): parseDoc = specDoc. Consequences proved on the specification: after any subtree the "
+             "scope (stack, context, inherited values, width, height) is restored, so nothing leaks to a following sibling; siblings "
+             "are rendered in document order in the parent's scope; every element and every descendant at any depth (through use) "
+             "carries its ancestors' accumulated transform as a prefix of its own and only appends (own transform, then viewport "
+             "transform or use translate); the matrix of ancestors ++ own pieces is the product with the own pieces acting on a point "
+             "first (over any field, from the C04 algebra); nothing below a computed display:none or below defs/clipPath/pattern is "
+             "rendered at any depth; the scope established by svg and use has no x/y/width/height. Stage B (Model/DocShape: length "
+             "resolution against ppi and the nearest viewport, shape defaults and degeneracy, matrix from the pieces) and the whole "
+             "pipeline are tied to the code by differential execution on generated documents (character-level attribute text to the "
+             "Lean model, the same XML to SVG.parse); an independent specification evaluator (CTM product, nearest viewport, use "
+             "expansion) and the reify=True/False relation are evaluated on the implementation's shapes.",
+        note="Partial: the accumulated transform string is modelled as its list of pieces (lexing the joined string = lexing the pieces "
+             "is validated by correspondence, not proved); XML tokenisation is ElementTree's; shape -> path -> absolute segments is "
+             "C06/C02's subject and is used here only to compare geometry; floats vs exact fields. Four fix: commits (width/height not "
+             "restored after a nested svg, rect radii not re-clamped after length resolution, nested svg x/y without viewBox ignored, "
+             "svg geometry inherited).",
+        technique="Lean 4 proof (well-founded mutual induction over the use-expansion recursion: loop-with-stack refines recursive renderer; prefix invariants; field algebra for the CTM) + differential correspondence on generated documents + independent specification evaluator and reify relation as oracle",
+        ref="DESIGN.md §4 C03"),
 }
 ALL = ["C%02d" % i for i in range(1, 21)]
 
